@@ -57,7 +57,7 @@ def regen(repo=None, typecheck=True):
                                             % " ".join(out[m.end():m.end() + 300].split()))
     return {k: (None if v is None else str(v)) for k, v in status.items()}
 
-GEN_KINDS = ("CSelectQ", "CSelectF", "CSpea2Q", "CSpea2F")     # case kinds Corr/C07_gen.v re-evaluates with the regenerated definitions
+GEN_KINDS = ("CSelectQ", "CSelectF", "CSpea2Q", "CSpea2F", "CRefF", "CRefQ")     # case kinds Corr/C07_gen.v re-evaluates with the regenerated definitions
 EPS = Fraction(1, 2 ** 52)          # numpy.finfo(float).eps
 
 
@@ -535,8 +535,8 @@ def main(run):
             "; ".join("%s (translator refused %s)" % x for x in refused))
     else:
         tie = "tie: correspondence-only (translator refused %s)" % "; ".join("%s: %s" % x for x in refused)
-    tie += ("; every other function of the property (selNSGA3, niching, find_intercepts, association, "
-            "uniform_reference_points) is tied by correspondence only")
+    tie += ("; every other function of the property (selNSGA3, niching, find_extreme_points, find_intercepts, "
+            "associate_to_niche) is tied by correspondence only")
     run.notes.append(tie)
     run.extra_cov["tie"] = tie
     run.extra_cov["regenerated_functions"] = translated
